@@ -209,6 +209,17 @@ APPEND = {
     ("C03_run_atomicity", "run_atomicity", "hence RMW atomicity in every reachable state of every execution"),
     ("C03_run_never_none", "run_never_none", "and loom's assert_ne never fires in any reachable state"),
     ("C03_run_atomic_exists", "run_atomic_exists", "the atomic is never removed"),
+    ("C03_steps_stable", "steps_stable", "COHERENCE OVER EXECUTIONS: an edge of the modification order between live stores of a is never lost along the steps of an execution"),
+    ("C03_steps_knows", "steps_knows", "a store that a thread's clock has seen stays seen"),
+    ("C03_CoRR_CoWR_steps", "CoRR_CoWR_steps", "CoRR / CoWR over executions: once thread t knows store j of a, in every later state of the execution neither a load by t (with the clock MLoadPost uses) nor an RMW has a store that was mo-before j among its candidates"),
+ ]), ("LV.AtomicFacts LV.AtomicCoherence LV.AtomicCoRR LV.AtomicClosure LV.AtomicBridge LV.NotifyFacts LV.ClockFacts LV.SyncMono LV.AtomicRun LV.AtomicRun2", "THE SAME WITH TWO OF THE FOUR RUN HYPOTHESES DISCHARGED (AtomicRun2.v): t_rel <= t_caus and the thread bound are invariants of executions (for configurations with max_threads <= MAX_THREADS); RunOK2 keeps only `the replayed index is a candidate` and `the ring has not wrapped`", [
+    ("C03_run_rel_le_caus", "run_rel_le_caus", "every thread's released clock is below its clock in every reachable state"),
+    ("C03_run_threads_bound", "run_threads_bound", "at most MAX_THREADS threads in every reachable state"),
+    ("C03_RunOK2_RunOK", "RunOK2_RunOK", "the two-hypothesis condition implies the four-hypothesis one"),
+    ("C03_run_goodAt2", "run_goodAt2", "the headline under RunOK2"),
+    ("C03_run_atomicity2", "run_atomicity2", "RMW atomicity in every reachable state under RunOK2"),
+    ("C03_steps_stable2", "steps_stable2", "no mo edge is lost along an execution, under RunOK2"),
+    ("C03_CoRR_CoWR_steps2", "CoRR_CoWR_steps2", "CoRR / CoWR over executions, under RunOK2"),
  ])],
  "C02": [("LV.AtomicFacts LV.AtomicCoherence", "Nothing allowed is pruned without a reason: the candidate set is never empty and contains every mo-maximal store (AtomicCoherence.v)", [
     ("C02_mo_maximal_is_candidate", "mo_maximal_is_candidate", "a live store with no mo-later live store is always a candidate"),
